@@ -4,9 +4,10 @@ Model of the REPAIRED code (fix commits 382c450, 92e9760, d65eea1, 1c0252f, 2839
 Only statements live here; the proofs are in Lemmas.lean.
 -/
 import Verif.C10.Lemmas
+import Verif.Generated.TablesC10
 
 namespace Verif.C10
-open Verif.Py
+open Verif.Py Verif.Tables
 
 /-! ## the bookkeeping invariant holds for every table the code can build -/
 
@@ -168,5 +169,83 @@ theorem process_then_commit_adds_nothing (s s' : Suite) (b : Int) (g : Bool) (af
       rw [L.commit_sync u]
       simp only
       rw [ih]
+
+/-! ## pins: the constants, operators and defaults of the anchored code that the model hand-codes -/
+
+/-- Read on every run from the live `delphin.itsdb` (AST of each function: literals in source order,
+comparison/boolean/arithmetic operators as `op:…`, calls of min/max/len/enumerate/reversed/sorted/… as
+`call:…`; docstrings, annotations and everything inside raise/warn/logger/assert left out) into
+`Verif/Generated/TablesC10.lean`, and compared here with the values the model was written against.
+
+* `c10TableInitConsts` (`''`, `None`, `0`, `0`), `c10SyncWithFileConsts` (`i = -1 … i + 1`): `sync`
+  (`rows := replicate file.length none`, `pers = vol = file.length`); a missing file is created empty.
+* `c10InTransactionConsts` (`len(rows) > pers or vol < pers`): `inTransaction`.
+* `c10IterSliceConsts` (`step is not None and step < 0` → `reversed`), `c10EnumRowsConsts`
+  (`range(*slice.indices(len))`, `file_exhausted`, `i not in indices`, `row is None` / `line is not None`),
+  `c10TableIterConsts`, `c10SelectConsts`, `c10LoadRowsConsts` (`slice(start, None)`): `resolve`, `enumRows`,
+  `iterSlice`, `abs`, `select`, `loadRows`.
+* `c10GetItemConsts` (`index < 0: index = len + index`, `i == index`): `getItem`.
+* `c10SetItemConsts` (`index < 0`, `len + index`, `index < 0` again → IndexError, `index + 1`,
+  `step == 1 and len(values) != max(0, stop - start)`, `min(vol, start, stop)`): `setItem`, `setSlice`.
+* `c10ClearConsts` (`vol = 0`), `c10AppendConsts`, `c10ExtendConsts`, `c10UpdateConsts`: `step` (clear, append,
+  extend via `extendL`), `update`/`applyCols`.
+* `c10RowInitConsts` (`len(data) != len(fields)` → ITSDBError), `c10RowEqConsts`, `c10RowGetitemConsts`,
+  `c10RowIterConsts`: `checkRows`/`extendL` width test; rows as opaque cell lists compared cell-wise.
+* `c10SuiteInTransactionConsts` (`any`), `c10SuiteGetitemConsts`, `c10ReloadConsts`, `c10SuiteInitConsts`
+  (`autocast=False`): `inTransactionS`, `stepAt` (unknown table), `reloadAll`, reopen = `reloadAll`.
+* `c10CommitConsts` (`suffix == '.gz'`, `vol >= pers and not gzip`, `append = True/False`): `commit`.
+* `c10ProcessConsts`, `c10AddRowConsts` (`num_changes = 0`, `+= len(table) - pers`, `> buffer_size`),
+  `c10Defaults` (`buffer_size=1000`, `gzip=False`, `select(cast=True)`): `process`, `addRow`, `numChanges`.
+* `c10Mapper…Consts`, `c10ParseKeys`, `c10ResultKeys`, `c10RunKeys`, `c10AffectedTables`, `c10TaskSelectors`:
+  not in the Lean model; the harness's re-statement of FieldMapper (`Spec.produced`, `AFFECTED`, `PARSE_KEYS`,
+  `RESULT_KEYS`, `RUN_KEYS`, parse-id from `-1` by `max(id + 1, i-id)`, run-id default `-1`, input column
+  `item.i-input`) hand-codes them, and the model's `process` receives `affected`/`produced` from it.
+* `c10ErrorBases`: ITSDBError is a TSDBError (the harness maps exceptions by class).
+
+A change to any of them must be followed in the model / harness: this theorem stops checking, which the
+check reports as a broken proof obligation and then searches for a failing input. -/
+theorem c10_pins :
+    c10TableInitConsts = ["", "None", "0", "0"] ∧
+    c10InTransactionConsts = ["call:len", "op:Or", "op:Gt", "op:Lt"] ∧
+    c10SyncWithFileConsts = ["op:USub", "1", "op:Add", "1", "None", "op:Add", "1", "op:Add", "1"] ∧
+    c10TableIterConsts = [] ∧
+    c10IterSliceConsts = ["op:And", "op:IsNot", "None", "op:Lt", "0", "call:list", "call:reversed"] ∧
+    c10GetItemConsts = ["op:Is", "None", "op:Lt", "0", "op:Add", "call:len", "call:enumerate", "op:Eq", "op:Is", "None"] ∧
+    c10TableGetitemConsts = [] ∧
+    c10SetItemConsts = ["call:list", "op:Lt", "0", "op:Add", "call:len", "op:Lt", "0", "op:Add", "1", "call:enumerate", "call:len", "op:And", "op:Eq", "1", "op:NotEq", "call:len", "call:max", "0", "op:Sub", "call:min"] ∧
+    c10LoadRowsConsts = ["call:list", "None"] ∧
+    c10TableLenConsts = ["call:len"] ∧
+    c10ClearConsts = ["0"] ∧
+    c10AppendConsts = [] ∧
+    c10ExtendConsts = ["op:Not"] ∧
+    c10UpdateConsts = ["op:Not", "call:list"] ∧
+    c10SelectConsts = [] ∧
+    c10EnumRowsConsts = ["op:Is", "None", "None", "call:range", "call:len", "False", "call:enumerate", "op:Not", "None", "True", "op:NotIn", "op:Is", "None", "op:IsNot", "None"] ∧
+    c10RowInitConsts = ["op:NotEq", "call:len", "call:len", "op:Is", "None"] ∧
+    c10RowGetitemConsts = [] ∧
+    c10RowIterConsts = [] ∧
+    c10RowEqConsts = ["op:Not", "__iter__", "op:Eq"] ∧
+    c10SuiteInitConsts = ["op:Is", "None", "exist_ok=True", "op:Not", "op:Is", "None", "autocast=False"] ∧
+    c10SuiteInTransactionConsts = ["call:any", "op:In"] ∧
+    c10SuiteGetitemConsts = ["op:NotIn", "op:NotIn"] ∧
+    c10SelectFromConsts = ["op:Not"] ∧
+    c10ReloadConsts = ["op:In"] ∧
+    c10CommitConsts = ["op:NotIn", "op:Eq", ".gz", "op:And", "op:GtE", "op:Not", "True", "False"] ∧
+    c10ProcessConsts = ["op:Is", "None", "op:Or", "op:NotIn", "call:all", "op:NotEq", "op:Is", "None", "op:Is", "None", "call:list"] ∧
+    c10AddRowConsts = ["0", "op:Add", "op:Sub", "call:len", "op:Gt"] ∧
+    c10MapperInitConsts = ["ninputs ntokens readings first total tcpu tgc treal words l-stasks p-ctasks p-ftasks p-etasks p-stasks aedges pedges raedges rpedges tedges eedges ledges sedges redges unifications copies conses symbols others gcs i-load a-load date error comment", "result-id time r-ctasks r-ftasks r-etasks r-stasks size r-aedges r-pedges derivation surface tree mrs", "run-comment platform protocol tsdb application environment grammar avms sorts templates lexicon lrules rules user host os start end items status", "op:USub", "1", "op:USub", "1", "run parse result rule output edge tree decision preference update fold score", "parse", "parse-id", "i-id", "cast=True"] ∧
+    c10MapperMapConsts = ["parse-id", "parse", "result", "chart", "edge", "op:In", "run", "run", "run-id", "op:USub", "1", "op:And", "op:NotIn", "op:In", "op:NotIn", "end", "end", "run"] ∧
+    c10MapParseConsts = ["keys", "op:In", "i-id", "i-id", "i-id", "op:And", "op:In", "parse-id", "op:In", "parse-id", "i-id", "parse-id", "i-id", "op:USub", "1", "i-id", "call:max", "op:Add", "1", "parse-id", "run-id", "run", "run-id", "op:USub", "1", "op:In", "tokens", "p-input", "tokens", "initial", "p-tokens", "tokens", "internal", "op:NotIn", "ninputs", "initial", "op:IsNot", "None", "ninputs", "call:len", "op:NotIn", "ntokens", "internal", "op:IsNot", "None", "ntokens", "call:len", "op:And", "op:NotIn", "readings", "op:In", "results", "readings", "call:len", "results", "op:In"] ∧
+    c10MapResultConsts = ["parse-id", "op:In", "flags", "flags", "flags", "op:In"] ∧
+    c10MapEdgeConsts = ["parse-id", "e-daughters", "e-daughters", "e-daughters", "None", "e-alternates", "e-alternates", "e-alternates", "None"] ∧
+    c10MapperCleanupConsts = ["op:NotEq", "op:USub", "1", "op:NotIn", "end", "end", "call:sorted", "run-id", "run-id", "op:USub", "1", "op:In", "run", "op:USub", "1", "op:USub", "1"] ∧
+    c10Defaults = [("Table.__init__", "('utf-8',)", "None"), ("Table._in_transaction", "None", "None"), ("Table._sync_with_file", "None", "None"), ("Table.__iter__", "None", "None"), ("Table._iterslice", "None", "None"), ("Table._getitem", "None", "None"), ("Table.__getitem__", "None", "None"), ("Table.__setitem__", "None", "None"), ("Table._load_rows", "None", "None"), ("Table.__len__", "None", "None"), ("Table.clear", "None", "None"), ("Table.append", "None", "None"), ("Table.extend", "None", "None"), ("Table.update", "None", "None"), ("Table.select", "None", "{'cast': True}"), ("Table._enum_rows", "(None,)", "None"), ("Row.__init__", "(None,)", "None"), ("Row.__getitem__", "None", "None"), ("Row.__iter__", "None", "None"), ("Row.__eq__", "None", "None"), ("TestSuite.__init__", "(None, None, 'utf-8')", "None"), ("TestSuite.in_transaction", "None", "None"), ("TestSuite.__getitem__", "None", "None"), ("TestSuite.select_from", "(None, True)", "None"), ("TestSuite.reload", "None", "None"), ("TestSuite.commit", "None", "None"), ("TestSuite.process", "(None, None, None, False, 1000, None)", "None"), ("_add_row", "None", "None"), ("FieldMapper.__init__", "(None,)", "None"), ("FieldMapper.map", "None", "None"), ("FieldMapper._map_parse", "None", "None"), ("FieldMapper._map_result", "None", "None"), ("FieldMapper._map_edge", "None", "None"), ("FieldMapper.cleanup", "None", "None")] ∧
+    c10ParseKeys = ["ninputs", "ntokens", "readings", "first", "total", "tcpu", "tgc", "treal", "words", "l-stasks", "p-ctasks", "p-ftasks", "p-etasks", "p-stasks", "aedges", "pedges", "raedges", "rpedges", "tedges", "eedges", "ledges", "sedges", "redges", "unifications", "copies", "conses", "symbols", "others", "gcs", "i-load", "a-load", "date", "error", "comment"] ∧
+    c10ResultKeys = ["result-id", "time", "r-ctasks", "r-ftasks", "r-etasks", "r-stasks", "size", "r-aedges", "r-pedges", "derivation", "surface", "tree", "mrs"] ∧
+    c10RunKeys = ["run-comment", "platform", "protocol", "tsdb", "application", "environment", "grammar", "avms", "sorts", "templates", "lexicon", "lrules", "rules", "user", "host", "os", "start", "end", "items", "status"] ∧
+    c10AffectedTables = ["run", "parse", "result", "rule", "output", "edge", "tree", "decision", "preference", "update", "fold", "score"] ∧
+    c10TaskSelectors = [("parse", "item", "i-input"), ("transfer", "result", "mrs"), ("generate", "result", "mrs")] ∧
+    c10ErrorBases = ["ITSDBError", "TSDBError", "PyDelphinException"] := by
+  refine ⟨?_, ?_, ?_, ?_, ?_, ?_, ?_, ?_, ?_, ?_, ?_, ?_, ?_, ?_, ?_, ?_, ?_, ?_, ?_, ?_, ?_, ?_, ?_, ?_, ?_, ?_, ?_, ?_, ?_, ?_, ?_, ?_, ?_, ?_, ?_, ?_, ?_, ?_, ?_, ?_, ?_⟩ <;> rfl
 
 end Verif.C10
